@@ -95,6 +95,7 @@ def main(argv):
         with ThreadPoolExecutor(par) as ex:
             results = list(ex.map(job, todo))
         dest = os.path.join(HERE, "mutants", "RESULTS.json")
+    dest = os.environ.get("VERIF_SELFTEST_DEST", dest)
     old = []
     if os.path.exists(dest) and ids:
         old = [r for r in json.load(open(dest)) if r.get("property") not in ids]
